@@ -104,7 +104,12 @@ fn check(text: &[u8], rep: &mut Reporter, case_idx: u64, slow: bool) {
                     d.set("expected", Json::s(format!("{e:?}")));
                     d.set("actual", Json::s(format!("{g:?}")));
                     d.set("cache_hex", Json::s(pgvcore::util::hex(&bytes[..bytes.len().min(400)])));
-                    rep.violation(case_idx, "prefix-kind", &format!("prefix rejected with {} but the first section that does not fit calls for {}", kind_name(g), kind_name(e)), d);
+                    let sig = if kind_name(g) == kind_name(e) {
+                        format!("prefix rejected with {} carrying the wrong declared/available lengths", kind_name(g))
+                    } else {
+                        format!("prefix rejected with {} but the first section that does not fit calls for {}", kind_name(g), kind_name(e))
+                    };
+                    rep.violation(case_idx, "prefix-kind", &sig, d);
                 }
             }
             (Err(Err(other)), _) => {
@@ -176,7 +181,12 @@ fn check(text: &[u8], rep: &mut Reporter, case_idx: u64, slow: bool) {
                     d.set("file_len", Json::i(bytes.len() as u64));
                     d.set("expected", Json::s(format!("{x:?}")));
                     d.set("actual", Json::s(format!("{g:?}")));
-                    rep.violation(case_idx, "header-edit", &format!("header edit of {name}: rejected with {} instead of {}", kind_name(g), kind_name(x)), d);
+                    let sig = if kind_name(g) == kind_name(x) {
+                        format!("header edit of {name}: rejected with {} carrying the wrong declared/available lengths", kind_name(g))
+                    } else {
+                        format!("header edit of {name}: rejected with {} instead of {}", kind_name(g), kind_name(x))
+                    };
+                    rep.violation(case_idx, "header-edit", &sig, d);
                 }
             }
             (Ok(_), Err(x)) => {
